@@ -41,6 +41,11 @@ func RunWithFallback(c *core.Ctx, p Prop, thorough bool) {
 			p.Thorough(c)
 		}
 	}
+	defer func() {
+		for _, r := range an.Renamed {
+			c.Note("anchor resolved through a rename (same receiver and signature, pinned name missing): " + r)
+		}
+	}()
 	m := c.Mark()
 	run()
 	force := os.Getenv("VERIF_FORCE_INLINE") != "" // testing aid: always evaluate the normal form as well
@@ -119,8 +124,16 @@ func init() {
 	}
 	ruleText = sb.String()
 	known := map[string]bool{}
+	an.Pinned = map[string]string{}
 	for _, l := range strings.Split(knownFuncs, "\n") {
-		known[strings.TrimSpace(l)] = true
+		f := strings.SplitN(strings.TrimSpace(l), "\t", 2)
+		if f[0] == "" {
+			continue
+		}
+		known[f[0]] = true
+		if len(f) == 2 {
+			an.Pinned[f[0]] = f[1]
+		}
 	}
 	an.InlineExclude = func(f *types.Func) bool {
 		// (1) a function some rule refers to by name is never inlined: the call is what the rule inspects
